@@ -15,7 +15,7 @@ from fractions import Fraction
 
 from ..core import rng_for
 from .. import gen, env
-from ..model import snap_tick, exact_ticks, REL_BAND
+from ..model import snap_tick, exact_ticks, grid_band
 from .c13 import finite_decimal, dec_text, HEADER
 
 ID = "C20"
@@ -152,7 +152,7 @@ def run_snap(case, mon):
             xout = exact_ticks(tout, tps)
             detail = dict(text=tin, out=tout, tps=tps)
             mon.count("snap:on_grid_strict" if (strict and xin.denominator == 1) else ("snap:off_grid" if strict else "snap:near_grid"))
-            tol = REL_BAND * max(1, abs(xin))
+            tol = grid_band(round(xin))
             # output must sit on a grid point (within float rounding of tick/tps)
             k = round(xout)
             if abs(xout - k) > tol:
